@@ -54,6 +54,18 @@ var hostPoolSimple = &gen.Pool{
 	FanBytes: []string{"a", "b", "c", "d", "e", "f", "g", "h", "-", "z"},
 }
 
+func isHexish(s string) bool {
+	if s == "" {
+		return false
+	}
+	for i := 0; i < len(s); i++ {
+		if !(s[i] >= '0' && s[i] <= '9' || s[i] >= 'a' && s[i] <= 'f') {
+			return false
+		}
+	}
+	return true
+}
+
 func randCase(r *ref.R, s string) string {
 	b := []byte(s)
 	for i, ch := range b {
@@ -185,12 +197,26 @@ func c14History(c *Ctx) {
 	ics := stdIC
 	hs := newHostsWith(ics, r.Bool())
 	pool := hostPoolSimple.Table(r, r.Range(8, 22))
-	model := &Sys{ICS: ics, Live: map[string]*Entry{}, pcache: map[string]ref.Pattern{}}
+	// Half of the histories register an interceptor for the rule `\d+` somewhere in the middle. It accepts any
+	// non-empty text made of digits and letters a-f, so it differs from the regexp; it must only affect domains
+	// added after the registration (a domain added before keeps its regexp meaning, also when its node is split later).
+	late := gen.ICSet{Name: "std+late", Funcs: ref.Interceptors{"digit": ref.IsDigits, "any": ref.IsAny, "word": ref.IsWord, `\d+`: isHexish}}
+	lateAt := -1
+	if r.Bool() {
+		lateAt = r.Range(3, 25)
+	}
+	model := &Sys{ICS: late, Live: map[string]*Entry{}, pcache: map[string]ref.Pattern{}}
+	// A domain added after the registration is an interceptor domain, unless a node with the same text of the
+	// older (regexp) kind still exists and is reused - the model cannot know, so such a domain is judged under
+	// both readings: modelAlt keeps the regexp reading for every domain.
+	modelAlt := &Sys{ICS: late, Live: map[string]*Entry{}, pcache: map[string]ref.Pattern{}}
+	parsedOld := map[string]ref.Pattern{}
 	parsed := map[string]ref.Pattern{}
 	var probes []string // decorated once: the same Host string is probed after every step
 	for i, p := range pool {
 		pp, _ := ref.Parse(p, ics.Funcs)
 		parsed[p] = pp
+		parsedOld[p] = pp
 		w, _ := Witness(pp, i)
 		host, _ := decorateHost(r, w)
 		if strings.HasPrefix(host, "[") { // brackets would be stripped: keep the witness shape
@@ -204,13 +230,34 @@ func c14History(c *Ctx) {
 	}
 	var prev []res
 	var ops []string
+	// probes whose value is not a digit string: only an interceptor that replaced a regexp would accept them
+	for i, p := range pool {
+		if strings.Contains(p, `\d+}`) && i%2 == 0 {
+			w, _ := Witness(parsed[p], i)
+			probes = append(probes, strings.NewReplacer("7", "7f", "42", "c4", "123", "a1").Replace(w))
+		}
+	}
 	for step := 0; step < 40 && !c.Violated(); step++ {
+		if step == lateAt {
+			hs.RegisterInterceptor(mux.InterceptorFunc(isHexish), `\d+`)
+			ops = append(ops, "RegisterInterceptor(hexish, \\d+)")
+			c.Class("interceptor_registered_mid_history")
+			// from now on newly added domains parse `\d+` as an interceptor
+			for _, q := range pool {
+				if model.Live[q] == nil {
+					pp, _ := ref.Parse(q, late.Funcs)
+					parsed[q] = pp
+				}
+			}
+			ics = late
+		}
 		p := ref.Pick(r, pool)
 		deleted := ""
 		if model.Live[p] != nil && r.Chance(1, 2) {
 			name := randCase(r, p) // Delete in a different case than Add
 			hs.Delete(name)
 			delete(model.Live, p)
+			delete(modelAlt.Live, p)
 			deleted = p
 			ops = append(ops, "Delete("+name+")")
 			c.Class("delete")
@@ -218,6 +265,10 @@ func c14History(c *Ctx) {
 				c.Class("delete_in_other_case")
 			}
 		} else if model.Live[p] == nil {
+			if ics.Name == "std+late" { // (re-)added after the registration: the interceptor applies to it
+				pp, _ := ref.Parse(p, late.Funcs)
+				parsed[p] = pp
+			}
 			name := randCaseLiterals(r, p)
 			v, _ := model.Verdict(p, []string{"GET"})
 			ok := tryAdd(hs, name)
@@ -228,6 +279,7 @@ func c14History(c *Ctx) {
 			}
 			if ok {
 				model.Live[p] = &Entry{Pat: parsed[p], M: map[string]*mon.Hnd{"GET": placeholderHnd}}
+				modelAlt.Live[p] = &Entry{Pat: parsedOld[p], M: map[string]*mon.Hnd{"GET": placeholderHnd}}
 			}
 		} else {
 			continue
@@ -238,7 +290,15 @@ func c14History(c *Ctx) {
 			ok, params, pan := matchHost(hs, host)
 			cur[i] = res{ok, fmtParams(params)}
 			c.Eval()
-			def, maybe := model.Classify(nh)
+			defA, maybeA := model.Classify(nh)
+			defB, maybeB := modelAlt.Classify(nh)
+			var def []string // definitely matching under both readings
+			for _, q := range defA {
+				if contains(defB, q) {
+					def = append(def, q)
+				}
+			}
+			maybe := append(append(append([]string{}, maybeA...), maybeB...), append(defA, defB...)...)
 			det := map[string]any{"ops": ops, "live": model.LivePatterns(), "host": host, "accepted": ok, "params": fmtParams(params), "definite": def, "maybe": maybe}
 			switch {
 			case pan != nil:
@@ -250,9 +310,10 @@ func c14History(c *Ctx) {
 			case ok:
 				good := false
 				for _, q := range append(append([]string{}, def...), maybe...) {
-					pp := model.Live[q].Pat
-					if len(pp.CaptureNames()) == len(params) && pp.Conforms(nh, params, ics.Funcs) {
-						good = true
+					for _, pp := range []ref.Pattern{model.Live[q].Pat, modelAlt.Live[q].Pat} {
+						if len(pp.CaptureNames()) == len(params) && pp.Conforms(nh, params, late.Funcs) {
+							good = true
+						}
 					}
 				}
 				if !good {
@@ -265,9 +326,13 @@ func c14History(c *Ctx) {
 			// Delete leaves every other domain matching as before
 			if deleted != "" && prev != nil && !contains(def, deleted) && !contains(maybe, deleted) {
 				dm, mm := false, false
-				if pp, ok := parsed[deleted]; ok {
-					_, dm = model.definite(pp, nh)
-					mm = pp.Matches(nh, ics.Funcs)
+				for _, pp := range []ref.Pattern{parsed[deleted], parsedOld[deleted]} {
+					if _, d := model.definite(pp, nh); d {
+						dm = true
+					}
+					if pp.Matches(nh, late.Funcs) {
+						mm = true
+					}
 				}
 				if !dm && !mm && prev[i] != cur[i] {
 					c.Violate("Delete changed the result for a host the deleted domain does not match", map[string]any{"ops": ops, "host": host, "before": prev[i], "after": cur[i]})
